@@ -42,21 +42,22 @@ def knobs_nested_raise():
 # name -> generator knobs, classes, whether the Lean async model is tied, per-tier (chunks, cases per chunk)
 STREAMS = {
     # AsyncMachine vs Machine + Lean async model == AsyncMachine; the regime of theorem C07_flat_partial
-    'flat': dict(knobs=knobs_main, hsm=False, nested=False, tie=True, raise_in_stage=False, quick=(16, 120), thorough=(64, 1500)),
+    'flat': dict(knobs=knobs_main, hsm=False, nested=False, tie=True, raise_in_stage=False, quick=(16, 120), thorough=(64, 500)),
     # the same descriptions on the hierarchical classes
-    'hsm-flat': dict(knobs=knobs_main, hsm=True, nested=False, tie=False, raise_in_stage=False, quick=(16, 50), thorough=(32, 800)),
+    'hsm-flat': dict(knobs=knobs_main, hsm=True, nested=False, tie=False, raise_in_stage=False, quick=(16, 50), thorough=(32, 300)),
     # compound / parallel states, transitions on leaves and ancestors; no raising callbacks
-    'nested': dict(knobs=knobs_nested, hsm=True, nested=True, tie=False, raise_in_stage=False, quick=(16, 50), thorough=(48, 800)),
+    'nested': dict(knobs=knobs_nested, hsm=True, nested=True, tie=False, raise_in_stage=False, quick=(16, 50), thorough=(48, 300)),
     # ... with raising callbacks (each alone in its stage)
-    'nested-raise': dict(knobs=knobs_nested_raise, hsm=True, nested=True, tie=False, raise_in_stage=False, quick=(8, 40), thorough=(16, 500)),
+    'nested-raise': dict(knobs=knobs_nested_raise, hsm=True, nested=True, tie=False, raise_in_stage=False, quick=(8, 40), thorough=(16, 200)),
     # raising callbacks next to siblings: the model still mirrors gather exactly; the differential is the known finding
-    'gather-raise': dict(knobs=knobs_main, hsm=False, nested=False, tie=True, raise_in_stage=True, quick=(8, 30), thorough=(16, 500)),
+    'gather-raise': dict(knobs=knobs_main, hsm=False, nested=False, tie=True, raise_in_stage=True, quick=(8, 30), thorough=(16, 150)),
 }
 
 
 def gen(stream, rng):
     cf = STREAMS[stream]
-    d = aflat.decorate(flat.gen_flat(rng, cf['knobs']()), rng, raise_in_stage=cf['raise_in_stage'])
+    d = aflat.decorate(flat.gen_flat(rng, cf['knobs']()), rng, raise_in_stage=cf['raise_in_stage'],
+                       per_model_multi=cf['tie'])
     if cf['nested']:
         anested.impose_tree(d, rng)
     return d
@@ -74,7 +75,9 @@ def property_failures(stream, d, ra, rs):
     if ra.bad or rs.bad:
         out.append(('arguments', {'async': ra.bad[:3], 'sync': rs.bad[:3]}))
     oa, os_ = aflat.obs(d, ra.items), aflat.obs(d, rs.items)
-    if oa != os_ or ra.final() != rs.final():
+    # queued='model' on several models has no synchronous counterpart: judged by the model tie and the barrier only
+    comparable = not (d.qmode == 2 and len(d.models) > 1)
+    if comparable and (oa != os_ or ra.final() != rs.final()):
         k = next((i for i, (x, y) in enumerate(zip(oa, os_)) if x != y), min(len(oa), len(os_)))
         out.append(('sync_async_obs', {'first_difference_at': k, 'async': [show(i) for i in oa[max(0, k - 4):k + 3]],
                                        'sync': [show(i) for i in os_[max(0, k - 4):k + 3]],
@@ -239,7 +242,7 @@ class C07(runner.Check):
              "script, history of awaited triggers (incl. triggers awaited inside callbacks) and every plain/coroutine/suspending "
              "assignment, yields the same callback starts, arguments, states, return values, exception kinds and final states as the "
              "synchronous engine model, adding only the calls of conditions after the first failing one (simulation proof, unbounded); "
-             "C07_condition_awaitable (kind-independence), C07_stage_barrier (every stage returns with all its callbacks finished), "
+             "C07_condition_awaitable (kind-independence), C07_stage_barrier / C07_history_barrier (every stage, trigger and history returns with all its callbacks finished), C07_stage_starts_in_order, "
              "C07_flat_counterexample (gather lets siblings of a raising callback run). Tie to the code: the Lean async model equals "
              "AsyncMachine trace-for-trace on generated cases; the property itself is judged on the code by a direct differential "
              "Machine vs AsyncMachine and HierarchicalMachine vs HierarchicalAsyncMachine (flat, compound and parallel "
@@ -297,6 +300,12 @@ class C07(runner.Check):
             f.case = runner.shrink(f.case, self.fails_like(f), shrink_steps, budget=25 if f.signature in known else 300)
             self.annotate(f)
         ex.failures.sort(key=lambda f: (f.signature in known, f.kind != 'monitor'))
+        # runner.Check.main lets a listed finding stand for a correspondence break; the listed findings of
+        # C07 occur on every run and explain nothing about the model tie, so a broken tie is reported on
+        # its own (failing-input search, then `no-failing-input-found`)
+        corr = [f for f in ex.failures if f.kind != 'monitor']
+        if corr and all(f.signature in known for f in ex.failures if f.kind == 'monitor'):
+            ex.failures = corr
         return ex
 
     def rejudge(self, case):
@@ -322,7 +331,7 @@ class C07(runner.Check):
         for part in runner.parallel(chunk, payloads):
             found += [f for f in part.failures if f.kind == 'monitor']
         known = set(k.get('signature') for k in self.known())
-        found.sort(key=lambda f: f.signature in known)
+        found = [f for f in found if f.signature not in known]
         for f in found[:1]:
             f.case = runner.shrink(f.case, self.fails_like(f), shrink_steps)
             self.annotate(f)
